@@ -840,6 +840,15 @@ def eom_shapes(tier):
                                 own=dict(clock=clock, local=False, slots=slots, mod=True, pj="derived", det_off=det_off,
                                          eom=dict(custom_buffer=custom, blocks=blocks)),
                                 op=op, maxseq=True, nbarriers=1))
+                # (b') the same with a CUSTOM phase-jump time (possibly shorter than the fall time: in EOM mode the jump still
+                # takes at least twice the rise time)
+                if not custom:
+                    for inb in (["pulseA"], ["pulseA", idle], ["pulseA", idle, idle]):
+                        for ph in ("A", "B"):
+                            shapes.append(dict(
+                                own=dict(clock=clock, local=False, slots=list(inb), mod=True, pj="custom", det_off=det_off,
+                                         eom=dict(custom_buffer=False, blocks=[(0, None)])),
+                                op=["add_pulse", "min-delay", ph], maxseq=False, nbarriers=1))
                 # (c) closed block followed by ordinary operation
                 for tail in ([], ["delay"], ["delay", "pulseA"]):
                     slots = ["pulseA", idle, "pulseB"] + tail
